@@ -35,6 +35,7 @@ struct vthr {
 	pthread_cond_t *cond; pthread_mutex_t *cmutex; int signalled;
 	int join_target;
 	int fresh;                    /* the first lock attempt after the thread starts is not a scheduling point */
+	int role, ridx;               /* tp.multi: 0 owner, 1 client, 2 handler, 3 worker; index within the role */
 };
 static struct vthr T[MAXT]; static int nT;
 static sem_t back;
@@ -98,13 +99,20 @@ static void *tramp(void *p)
 	sem_post(&back);
 	return r;
 }
-static int ncreate;
+static int ncreate, g_multi, g_nworkers;
+static void *client_main(void *p);
+static void *thread_worker(void *arg);
 static int vs_create(pthread_t *t, const pthread_attr_t *a, void *(*fn)(void *), void *arg)
 {
 	(void)a;
 	if (ncreate++ > 0) park();                 /* worker threads: the creation is a step of its own; the handler (first) is not */
 	int id = nT++;
 	T[id].st = T_READY; T[id].fn = fn; T[id].arg = arg; T[id].fresh = 1; T[id].want = NULL;
+	if (g_multi) {
+		if (fn == client_main) { T[id].role = 1; T[id].ridx = (int)(intptr_t)arg; }
+		else if (fn == thread_worker) { T[id].role = 3; T[id].ridx = g_nworkers++; }
+		else { T[id].role = 2; T[id].ridx = T[me].ridx; }      /* the result handler of the creating client */
+	}
 	sem_init(&T[id].go, 0, 0);
 	pthread_create(&T[id].real, NULL, tramp, (void *)(intptr_t)id);
 	*t = T[id].real;
@@ -160,11 +168,13 @@ static void *caller_main(void *p)
  * misuse, and the run reports every client's deliveries and the largest worker count seen. */
 #define MAXC 8
 static int g_clients; static long mdel[MAXC][4096]; static int mndel[MAXC]; static size_t g_maxcount;
+static struct resultq *g_rqs[MAXC];
 static void mrcb(void *res, void *cbdata) { int c = (int)(intptr_t)cbdata; if (mndel[c] < 4096) mdel[c][mndel[c]++] = (long)(intptr_t)res - 1; }
 static void *client_main(void *p)
 {
 	int c = (int)(intptr_t)p;
 	struct result_handler *rh = result_handler_init(mrcb, (void *)(intptr_t)c);
+	g_rqs[c] = rh->rq;
 	for (int j = 0; j < g_jobs; j++)
 		threadpool_dispatch(g_pool, rh, g_ord, job, (void *)(intptr_t)(j + 1));
 	result_handler_destroy(&rh);
@@ -181,19 +191,57 @@ static void *owner_main(void *p)
 	return NULL;
 }
 static int enabled(int i);
+/* canonical thread order and names (the Lean machine's): o, c0, h0, c1, h1, ..., w0, w1, ... */
+static int mrank(int i) { return T[i].role == 0 ? 0 : T[i].role == 1 ? 1 + 2 * T[i].ridx : T[i].role == 2 ? 2 + 2 * T[i].ridx : 1 + 2 * MAXC + T[i].ridx; }
+static void mname(int i, char *b) { if (T[i].role == 0) strcpy(b, "o"); else sprintf(b, "%c%d", T[i].role == 1 ? 'c' : T[i].role == 2 ? 'h' : 'w', T[i].ridx); }
+static int msorted(int *out) { int n = 0; for (int i = 0; i < nT; i++) out[n++] = i; for (int a = 1; a < n; a++) for (int b = a; b > 0 && mrank(out[b - 1]) > mrank(out[b]); b--) { int t = out[b]; out[b] = out[b - 1]; out[b - 1] = t; } return n; }
+static int mwidx(struct thread *t) { for (int i = 0; i < nT; i++) if (T[i].role == 3 && T[i].st != T_DONE && T[i].arg == t) return T[i].ridx; return -1; }
+static int mhandler_done(int c) { for (int i = 0; i < nT; i++) if (T[i].role == 2 && T[i].ridx == c) return T[i].st == T_DONE; return 0; }
+static int mrqidx(struct resultq *rq) { for (int c = 0; c < g_clients; c++) if (g_rqs[c] == rq) return c; return -1; }
+static char mcache[MAXC][400];
 static void print_multi(void)
 {
-	static char out[16384]; char *p = out;
+	static char out[32768]; char *p = out;
 	if (T[0].st != T_DONE && g_pool && g_pool->count > g_maxcount) g_maxcount = g_pool->count;
-	p += sprintf(p, "mst %s maxcount=%zu", T[0].st == T_DONE ? "done" : "run", g_maxcount);
+	if (T[0].st == T_DONE) {
+		p += sprintf(p, "mst done");
+		for (int c = 0; c < g_clients; c++) {
+			p += sprintf(p, " del%d=[", c);
+			for (int i = 0; i < mndel[c]; i++) p += sprintf(p, "%s%ld", i ? "," : "", mdel[c][i]);
+			p += sprintf(p, "]");
+		}
+		if (problem[0]) p += sprintf(p, " PROBLEM=%s", problem);
+		puts(out); return;
+	}
+	p += sprintf(p, "mst run count=%zu idle=[", g_pool ? g_pool->count : 0);
+	if (g_pool) { int k = 0; for (struct thread *t = g_pool->head; t && k < 100; t = t->next, k++) p += sprintf(p, "%s%d", k ? "," : "", mwidx(t)); }
+	p += sprintf(p, "] thr=[");
+	int ord[MAXT], n = msorted(ord), first = 1;
+	for (int a = 0; a < n; a++) {
+		int i = ord[a]; if (T[i].role != 3) continue;
+		struct thread *t = T[i].arg;
+		if (!first) p += sprintf(p, ";"); first = 0;
+		if (T[i].st == T_DONE) p += sprintf(p, "x");
+		else p += sprintf(p, "%d/%ld/%ld/%d", t->running ? 1 : 0, t->cb ? (long)(intptr_t)t->arg - 1 : -1L, t->res ? (long)(intptr_t)t->res - 1 : -1L, t->rq ? mrqidx(t->rq) : -1);
+	}
+	p += sprintf(p, "]");
 	for (int c = 0; c < g_clients; c++) {
-		p += sprintf(p, " del%d=[", c);
+		if (!mcache[c][0]) strcpy(mcache[c], "[] nth=0 fin=0");
+		if (g_rqs[c] && !mhandler_done(c)) {
+			char *q = mcache[c]; q += sprintf(q, "["); int k = 0;
+			for (struct thread *t = g_rqs[c]->head; t && k < 60; t = t->next, k++) q += sprintf(q, "%s%d", k ? "," : "", mwidx(t));
+			sprintf(q, "] nth=%lld fin=%d", (long long)(int64_t)g_rqs[c]->nthreads, g_rqs[c]->finished ? 1 : 0);
+		}
+		p += sprintf(p, " q%d=%s del%d=[", c, mcache[c], c);
 		for (int i = 0; i < mndel[c]; i++) p += sprintf(p, "%s%ld", i ? "," : "", mdel[c][i]);
 		p += sprintf(p, "]");
 	}
-	int en = 0, sl = 0;
-	for (int i = 0; i < nT; i++) { if (enabled(i)) en++; if (T[i].st == T_COND && !T[i].signalled) sl++; }
-	p += sprintf(p, " en=%d sl=%d threads=%d", en, sl, nT);
+	char nb[16]; int k = 0;
+	p += sprintf(p, " en=[");
+	for (int a = 0; a < n; a++) if (enabled(ord[a])) { mname(ord[a], nb); p += sprintf(p, "%s%s", k++ ? "," : "", nb); }
+	p += sprintf(p, "] sl=["); k = 0;
+	for (int a = 0; a < n; a++) if (T[ord[a]].st == T_COND && !T[ord[a]].signalled) { mname(ord[a], nb); p += sprintf(p, "%s%s", k++ ? "," : "", nb); }
+	p += sprintf(p, "]");
 	if (problem[0]) p += sprintf(p, " PROBLEM=%s", problem);
 	puts(out);
 }
@@ -297,6 +345,7 @@ int main(void)
 			sem_init(&back, 0, 0);
 			nT = 1; T[0].st = T_READY; T[0].fresh = 0; sem_init(&T[0].go, 0, 0); T[0].fn = owner_main;
 			ncreate = 1;                                        /* every creation is a scheduling point here */
+			g_multi = 1; T[0].role = 0; T[0].ridx = 0;
 			pthread_create(&T[0].real, NULL, tramp, (void *)(intptr_t)0);
 			turn(0);
 			print_multi();
@@ -305,11 +354,11 @@ int main(void)
 		if (!started) { puts("bad-op"); continue; }
 		if (started == 2 && !strncmp(line, "tp.auto ", 8)) {
 			unsigned long r = strtoul(line + 8, NULL, 10);
-			int cand[MAXT], nc = 0, sl[MAXT], ns = 0;
-			for (int i = 0; i < nT; i++) { if (enabled(i)) cand[nc++] = i; if (T[i].st == T_COND && !T[i].signalled) sl[ns++] = i; }
-			if (ns > 0 && (r >> 16) % 8 == 0) { int i = sl[(r >> 8) % ns]; T[i].signalled = 1; printf("pick s:t%d ", i); print_multi(); continue; }
+			int ord[MAXT], n = msorted(ord), cand[MAXT], nc = 0, sl[MAXT], ns = 0; char nb[16];
+			for (int a = 0; a < n; a++) { int i = ord[a]; if (enabled(i)) cand[nc++] = i; if (T[i].st == T_COND && !T[i].signalled) sl[ns++] = i; }
+			if (ns > 0 && (r >> 16) % 8 == 0) { int i = sl[(r >> 8) % ns]; T[i].signalled = 1; mname(i, nb); printf("pick s:%s ", nb); print_multi(); continue; }
 			if (nc == 0) { printf("pick none "); print_multi(); continue; }
-			int i = cand[r % nc]; printf("pick t%d ", i);
+			int i = cand[r % nc]; mname(i, nb); printf("pick %s ", nb);
 			turn(i); print_multi(); continue;
 		}
 		if (!strncmp(line, "tp.step ", 8)) {
